@@ -146,6 +146,8 @@ def frame_obs(df):
 
 def _read_kw(args):
     kw = {}
+    if args and args.get("row_filter"):
+        kw["row_filter"] = True
     for k in ("columns", "index", "categories", "dtypes", "filters"):
         if args and args.get(k) is not None:
             v = args[k]
@@ -166,6 +168,21 @@ def _info(pf):
     return {"info": i, "str_rows_row_groups": str(pf).split("'rows'")[-1]}
 
 
+def _spc(pf, a):
+    from fastparquet.api import sorted_partitioned_columns
+    out = sorted_partitioned_columns(pf, filters=[tuple(f) for f in a["filters"]] if a and a.get("filters") else None)
+    return {str(c): {k: [repr(x) for x in v] for k, v in d.items()} for c, d in sorted(out.items())}
+
+
+def filtered_observers(rng, h, total):
+    """observers that take filters (row-group pruning, row filtering): they walk the handle's row groups and statistics"""
+    k = rng.choice([1, 2, 3, 5, max(1, total // 2)])
+    flt = [["id", rng.choice(["<", ">="]), k]]
+    return [["obs", h, "sorted_partitioned_columns", {"filters": flt}], ["obs", h, "to_pandas", {"filters": flt, "row_filter": True}],
+            ["obs", h, "to_pandas", {"filters": flt}], ["obs", h, "iter", {"filters": flt}], ["obs", h, "count_filtered", {"filters": flt}],
+            ["obs", h, "head", {"n": 4, "filters": flt}], ["obs", h, "to_pandas_mask", {"k": rng.choice([1, 2, k])}]]
+
+
 OBSERVERS = {
     "info": lambda pf, a: _info(pf),
     "count": lambda pf, a: int(pf.count()),
@@ -179,7 +196,11 @@ OBSERVERS = {
     "index": lambda pf, a: list(pf._get_index(None) or []),
     "head": lambda pf, a: frame_obs(pf.head(a["n"], **_read_kw(a))),
     "to_pandas": lambda pf, a: frame_obs(pf.to_pandas(**_read_kw(a))),
+    # custom row mask (a boolean array over all rows of the handle): only the first k rows
+    "to_pandas_mask": lambda pf, a: frame_obs(pf.to_pandas(row_filter=np.arange(sum(int(rg.num_rows) for rg in pf.row_groups)) < a["k"])),
     "iter": lambda pf, a: [frame_obs(df)["rows"] for df in pf.iter_row_groups(**_read_kw(a))],
+    "sorted_partitioned_columns": lambda pf, a: _spc(pf, a),
+    "count_filtered": lambda pf, a: int(pf.count(filters=[tuple(f) for f in a["filters"]])),
     "pickled_twin": lambda pf, a: (lambda t: {"len": len(t), "rows": [int(rg.num_rows) for rg in t.row_groups], "count": int(t.count())})(pickle.loads(pickle.dumps(pf))),
 }
 # observers that read attribute `a` of the inventory first (used to aim programs at an offending (operation, attribute) pair)
@@ -266,6 +287,11 @@ def gen_program(rng, ds, nsteps=None, aim=None):
         op, attr = aim
         first = [["obs", 0, o, ({"n": 3} if o == "head" else None)] for o in READS_ATTR.get(attr, ["info", "statistics", "head", "to_pandas"])]
         prog += first
+        if op not in ("pickle", "copy", "deepcopy") and "getitem" not in op and "#" not in op and "!" not in op:
+            # an OBSERVER that mutates the cached object `attr`: read it, run the filter-taking observers, read it again
+            base_obs = [["obs", 0, o, ({"n": 3} if o == "head" else None)] for o in ("statistics", "row_group_rows", "count", "info", "to_pandas", "cats")]
+            prog = base_obs + filtered_observers(rng, 0, total) + base_obs + [["obs", 0, "pickled_twin", None], ["obs", 0, "len", None]]
+            return prog
         if "getitem" in op:
             clean = [j for j in range(nrg) if j not in ds["nullrgs"]]
             if clean and rng.random() < 0.7:
@@ -294,7 +320,10 @@ def gen_program(rng, ds, nsteps=None, aim=None):
     for _ in range(nsteps):
         r = rng.random()
         h = rng.randrange(nh)
-        if r < 0.55:
+        if r < 0.08:
+            fo = filtered_observers(rng, h, total)
+            prog += rng.sample(fo, 2)
+        elif r < 0.55:
             prog.append(gen_obs(rng, ds, h, total))
             asked.setdefault(h, []).append(prog[-1])
         elif r < 0.8:
